@@ -13,7 +13,7 @@ def run(cmd, **kw):
 
 def evaluate(pid, x, extra_checks=()):
     src = {"A": "/tmp/seedout_%s", "B": "/tmp/seedout_%s", "C": "/tmp/seedout2_%s", "D": "/tmp/seedout2_%s", "E": "/tmp/seedout3_%s", "F": "/tmp/seedout3_%s",
-           "G": "/tmp/seedout4_%s", "H": "/tmp/seedout4_%s", "I": "/tmp/seedout5_%s", "J": "/tmp/seedout5_%s", "K": "/tmp/seedout6_%s", "L": "/tmp/seedout6_%s"}[x] % pid
+           "G": "/tmp/seedout4_%s", "H": "/tmp/seedout4_%s", "I": "/tmp/seedout5_%s", "J": "/tmp/seedout5_%s", "K": "/tmp/seedout6_%s", "L": "/tmp/seedout6_%s", "M": "/tmp/seedout7_%s", "N": "/tmp/seedout7_%s"}[x] % pid
     patch, demo = os.path.join(src, x + ".diff"), os.path.join(src, x + "_demo.py")
     if not (os.path.exists(patch) and os.path.exists(demo)):
         print(pid, x, "MISSING FILES")
@@ -84,6 +84,9 @@ if __name__ == "__main__":
         args = args[1:]
     elif args and args[0] == "--round6":
         variants = ("K", "L")
+        args = args[1:]
+    elif args and args[0] == "--round7":
+        variants = ("M", "N")
         args = args[1:]
     for pid in args:
         for x in variants:
